@@ -109,11 +109,34 @@ let run_lex d sep with_acc =
   done with End_of_file -> ());
   print_string (Buffer.contents out)
 
+let run_reflex () =
+  let out = Buffer.create (1 lsl 20) in
+  let i = ref 0 in
+  (try while true do
+    let line = String.trim (input_line stdin) in
+    let src = decode_utf8 (string_of_hex line) in
+    Printf.bprintf out "CASE %d %s\n" !i line; incr i;
+    let text = (match src with c :: r when n_to_int c = 65279 -> r | _ -> src) in
+    if not (macro_free text) then Buffer.add_string out "MF 0\n"
+    else begin
+      Buffer.add_string out "MF 1\n";
+      let ((toks, errs), lit) = reflex src in
+      List.iter (fun (t : rtok) ->
+        Printf.bprintf out "RT %s %s %s %s\n" (n_to_string (tt_to_N t.rt_type)) (n_to_string (ch_to_N t.rt_chan))
+          (n_to_string t.rt_byte) (payload_to_string t.rt_payload)) toks;
+      List.iter (fun (e : rerr) -> Printf.bprintf out "RE %s %s\n" (n_to_string (ek_code e.re_kind)) (n_to_string e.re_byte)) errs;
+      Printf.bprintf out "RLIT %s\n" (hex_of_bytes lit)
+    end;
+    if Buffer.length out > (1 lsl 19) then (print_string (Buffer.contents out); Buffer.clear out)
+  done with End_of_file -> ());
+  print_string (Buffer.contents out)
+
 let () =
   let mode = if Array.length Sys.argv > 1 then Sys.argv.(1) else "" in
   let d = not (Array.length Sys.argv > 2 && Sys.argv.(2) = "release") in
   match mode with
   | "buf" -> run_buf d
+  | "reflex" -> run_reflex ()
   | "lex" -> run_lex d (Array.length Sys.argv > 3 && Sys.argv.(3) = "sep") false
   | "lexa" -> run_lex d (Array.length Sys.argv > 3 && Sys.argv.(3) = "sep") true
   | _ -> prerr_endline "usage: modelrun buf|lex|lexa [debug|release] [sep]"; exit 2
